@@ -4,6 +4,7 @@
 package main
 
 import (
+	cryptorand "crypto/rand"
 	"encoding/binary"
 	"errors"
 	"fmt"
@@ -36,9 +37,38 @@ func (p plain) PublicKey() ssh.PublicKey                          { return p.s.P
 func (p plain) Sign(r io.Reader, d []byte) (*ssh.Signature, error) { return p.s.Sign(r, d) }
 
 // mkSigner builds the signer `<key>~<keyFormat>~<kind>` stands for.
-func mkSigner(spec string) ssh.Signer {
+// caCert returns the certificate of raw key id (1 ed25519, 3 ecdsa, 4 rsa) for principal "u" signed by
+// the CA of the given type (ed → key 2, ec → key 3, rsa → key 4). Key ids 100+id name these certificates.
+func caCert(id int, ca string) *ssh.Certificate {
+	caKey := map[string]int{"ed": 2, "ec": 3, "rsa": 4}[ca]
+	if caKey == 0 {
+		panic("ca " + ca)
+	}
+	caSigner, err := ssh.NewSignerFromSigner(sauth.Keys[caKey].CryptoSigner())
+	if err != nil {
+		panic(err)
+	}
+	pub, err := ssh.NewPublicKey(sauth.Keys[id].CryptoSigner().Public())
+	if err != nil {
+		panic(err)
+	}
+	c := &ssh.Certificate{Key: pub, Serial: 7, CertType: ssh.UserCert, KeyId: "verif", ValidPrincipals: []string{"u"},
+		ValidBefore: ssh.CertTimeInfinity}
+	if err := c.SignCert(cryptorand.Reader, caSigner); err != nil {
+		panic(err)
+	}
+	return c
+}
+
+func mkSigner(spec string) ssh.Signer { return mkSignerCA(spec, nil) }
+
+func mkSignerCA(spec string, cert *ssh.Certificate) ssh.Signer {
 	f := strings.Split(spec, "~")
 	id, _ := strconv.Atoi(f[0])
+	certID := 0
+	if id >= 100 {
+		certID, id = id, id-100
+	}
 	k := sauth.Keys[id]
 	raw, err := ssh.NewSignerFromSigner(k.CryptoSigner())
 	if err != nil {
@@ -61,6 +91,16 @@ func mkSigner(spec string) ssh.Signer {
 	default:
 		panic("signer kind " + f[2])
 	}
+	if certID != 0 {
+		if cert == nil {
+			panic("certificate signer outside a real op")
+		}
+		cs, err := ssh.NewCertSigner(cert, base)
+		if err != nil {
+			panic(err)
+		}
+		return cs
+	}
 	if id == 5 || id == 6 {
 		pk, err := ssh.ParsePublicKey(k.Blob)
 		if err != nil {
@@ -75,14 +115,67 @@ func mkSigner(spec string) ssh.Signer {
 	return base
 }
 
-func mkAuth(spec string) []ssh.AuthMethod {
+// authCtx carries what scripted auth methods share: the PublicKeysCallback call counter and, in real
+// sessions, the certificate that signer ids >= 100 stand for.
+type authCtx struct {
+	pkCalls int
+	cert    *ssh.Certificate
+}
+
+func mkAuth(spec string) []ssh.AuthMethod { return (&authCtx{}).mkAuth(spec) }
+
+func (c *authCtx) mkAuth(spec string) []ssh.AuthMethod {
 	var out []ssh.AuthMethod
 	if spec == "-" || spec == "" {
 		return out
 	}
 	for _, m := range strings.Split(spec, ";") {
+		out = append(out, c.mkMethod(m))
+	}
+	return out
+}
+
+func (c *authCtx) mkMethod(m string) ssh.AuthMethod {
+	if strings.HasPrefix(m, "rt") {
+		n, rest, _ := strings.Cut(m[2:], ":")
+		tries, err := strconv.Atoi(n)
+		if err != nil {
+			panic("retry " + m)
+		}
+		return ssh.RetryableAuthMethod(c.mkMethod(rest), tries)
+	}
+	var out []ssh.AuthMethod
+	{
 		kind, arg, _ := strings.Cut(m, ":")
 		switch kind {
+		case "pkcb":
+			var lists [][]ssh.Signer
+			for _, l := range strings.Split(arg, "|") {
+				var signers []ssh.Signer
+				if l != "" {
+					for _, s := range strings.Split(l, "+") {
+						signers = append(signers, mkSignerCA(s, c.cert))
+					}
+				}
+				lists = append(lists, signers)
+			}
+			out = append(out, ssh.PublicKeysCallback(func() ([]ssh.Signer, error) {
+				k := c.pkCalls
+				c.pkCalls++
+				if k >= len(lists) {
+					k = len(lists) - 1
+				}
+				return lists[k], nil
+			}))
+		case "kbdr":
+			ans := arg
+			out = append(out, ssh.KeyboardInteractive(func(_, _ string, qs []string, _ []bool) ([]string, error) {
+				a := make([]string, len(qs))
+				for i := range a {
+					a[i] = ans
+				}
+				return a, nil
+			}))
 		case "pw":
 			out = append(out, ssh.Password(arg))
 		case "kbd":
@@ -100,7 +193,7 @@ func mkAuth(spec string) []ssh.AuthMethod {
 			var signers []ssh.Signer
 			if arg != "" {
 				for _, s := range strings.Split(arg, "+") {
-					signers = append(signers, mkSigner(s))
+					signers = append(signers, mkSignerCA(s, c.cert))
 				}
 			}
 			out = append(out, ssh.PublicKeys(signers...))
@@ -108,7 +201,7 @@ func mkAuth(spec string) []ssh.AuthMethod {
 			panic("method " + m)
 		}
 	}
-	return out
+	return out[0]
 }
 
 // ---- scripted server
@@ -261,6 +354,17 @@ func (x *session) packet(atom string) ([]byte, error) {
 		return p, nil
 	case "irb":
 		return append(S(sauth.U32(S(S(S([]byte{60}, ""), ""), ""), 2), "only one"), 1), nil
+	case "irs", "irx": // NumPrompts one more / one less than the prompts present
+		n, _ := strconv.Atoi(arg)
+		announced := n + 1
+		if kind == "irx" {
+			announced, n = n, n+1
+		}
+		p := sauth.U32(S(S(S([]byte{60}, "name"), "instruction"), ""), uint32(announced))
+		for i := 0; i < n; i++ {
+			p = append(S(p, "prompt: "), 1)
+		}
+		return p, nil
 	case "d":
 		return nil, ssh.ErrVerifDisconnect
 	case "re":
@@ -275,10 +379,39 @@ func (x *session) packet(atom string) ([]byte, error) {
 	panic("atom " + atom)
 }
 
-func runScripted(user, auth string, next func(x *session) (string, bool)) (res string, x *session) {
+func runScripted(user, auth, acb string, next func(x *session) (string, bool)) (res string, x *session) {
 	sauth.Init()
 	x = &session{}
-	cfg := &ssh.ClientConfig{User: user, Auth: mkAuth(auth)}
+	ctx := &authCtx{}
+	cfg := &ssh.ClientConfig{User: user, Auth: ctx.mkAuth(auth)}
+	if acb != "" {
+		var ds []string
+		if acb != "-" {
+			ds = strings.Split(acb, ";")
+		}
+		calls := 0
+		lst := func(l []string) string {
+			if len(l) == 0 {
+				return "-"
+			}
+			return strings.Join(l, ",")
+		}
+		cfg.AuthCallback = func(c *ssh.ClientAuthContext) (ssh.AuthMethod, error) {
+			x.writes = append(x.writes, fmt.Sprintf("CB(%s|%s|%s)", lst(c.AllowedMethods), lst(c.PartialSuccessMethods), lst(c.TriedMethods)))
+			d := "n"
+			if calls < len(ds) {
+				d = ds[calls]
+			}
+			calls++
+			switch {
+			case d == "f":
+				return nil, errors.New("auth callback refuses")
+			case strings.HasPrefix(d, "u="):
+				return ctx.mkMethod(d[2:]), nil
+			}
+			return nil, nil
+		}
+	}
 	read := func() ([]byte, error) {
 		atom, ok := next(x)
 		if !ok {
@@ -299,7 +432,7 @@ func execScripted(o hx.Op) string {
 		script = strings.Split(s, ";")
 	}
 	i := 0
-	res, x := runScripted(o.Str("user"), o.Str("auth"), func(*session) (string, bool) {
+	res, x := runScripted(o.Str("user"), o.Str("auth"), o.Str("acb"), func(*session) (string, bool) {
 		if i >= len(script) {
 			return "", false
 		}
@@ -319,7 +452,20 @@ func execScripted(o hx.Op) string {
 func execReal(o hx.Op) string {
 	sauth.Init()
 	chain := o.List("chain")
-	authKey := sauth.Keys[o.Int("auth")]
+	authID := o.Int("auth")
+	actx := &authCtx{}
+	var caPub ssh.PublicKey
+	var authBlob []byte
+	if authID >= 100 {
+		actx.cert = caCert(authID-100, o.Str("ca"))
+		caPub = actx.cert.SignatureKey
+		authBlob = actx.cert.Marshal()
+	} else {
+		authBlob = sauth.Keys[authID].Blob
+	}
+	checker := &ssh.CertChecker{IsUserAuthority: func(k ssh.PublicKey) bool {
+		return caPub != nil && string(k.Marshal()) == string(caPub.Marshal())
+	}}
 	var stage func(i int) ssh.ServerAuthCallbacks
 	result := func(i int, good bool) (*ssh.Permissions, error) {
 		if !good {
@@ -338,8 +484,13 @@ func execReal(o hx.Op) string {
 				return result(i, string(pw) == "good")
 			}
 		case "publickey":
-			c.PublicKeyCallback = func(_ ssh.ConnMetadata, k ssh.PublicKey) (*ssh.Permissions, error) {
-				return result(i, string(k.Marshal()) == string(authKey.Blob))
+			c.PublicKeyCallback = func(conn ssh.ConnMetadata, k ssh.PublicKey) (*ssh.Permissions, error) {
+				if authID >= 100 { // certificates: validated by CertChecker against the CA, then bound to the expected key
+					if _, err := checker.Authenticate(conn, k); err != nil {
+						return result(i, false)
+					}
+				}
+				return result(i, string(k.Marshal()) == string(authBlob))
 			}
 		case "keyboard-interactive":
 			c.KeyboardInteractiveCallback = func(_ ssh.ConnMetadata, ch ssh.KeyboardInteractiveChallenge) (*ssh.Permissions, error) {
@@ -393,22 +544,7 @@ func execReal(o hx.Op) string {
 		sc.Wait()
 	}()
 	// the client's keyboard-interactive answers / password are in the auth spec: pw:<text>, kbdr:<answer>
-	var auth []ssh.AuthMethod
-	for _, m := range strings.Split(o.Str("cli"), ";") {
-		kind, arg, _ := strings.Cut(m, ":")
-		if kind == "kbdr" {
-			ans := arg
-			auth = append(auth, ssh.KeyboardInteractive(func(_, _ string, qs []string, _ []bool) ([]string, error) {
-				out := make([]string, len(qs))
-				for i := range out {
-					out[i] = ans
-				}
-				return out, nil
-			}))
-		} else {
-			auth = append(auth, mkAuth(m)...)
-		}
-	}
+	auth := actx.mkAuth(o.Str("cli"))
 	ccfg := &ssh.ClientConfig{User: "u", Auth: auth, HostKeyCallback: ssh.InsecureIgnoreHostKey(), Timeout: 20 * time.Second}
 	conn, err := net.Dial("tcp", ln.Addr().String())
 	if err != nil {
